@@ -386,16 +386,16 @@ def export_line(run, info):
 
 
 def eval_line(run, info, stage, orc):
-    from .histories import ref_code, dest_code
+    from .histories import ref_code, dest_code, no_octopus_of
     pr = info['pr']
     shas, commits = info['shas'], info['commits']
     graph = ','.join('%s/%d' % ('.'.join(str(shas[p]) for p in c['parents']) or '-',
                                 1 if c['author'] == 'robot' else 0) for c in commits)
     refs = ','.join('%s=%d' % (ref_code(n), shas[s]) for n, s in sorted(info['after'].items()))
     dests = ','.join(dest_code(d) for d in run.cfg.dests)
-    return 'C15 eval %d %s %s %d %d %s %s %s %s %s' % (
+    return 'C15 eval %d %s %s %d %d %s %s %s %s %s %d' % (
         pr['id'], pr['src'], dest_code(pr['dst']), 1 if run.cfg.use_queue else 0, 1 if run.cfg.skip_queue else 0,
-        dests, refs, graph, stage, orc)
+        dests, refs, graph, stage, orc, 1 if no_octopus_of(run, pr) else 0)
 
 
 def real_summary(run, info):
@@ -475,12 +475,12 @@ def compare_reset(run, info, answer):
 
 
 def compare_rebuild(run, info, model):
-    from .histories import compare, parse_model_obs, INTEGRATION_STATUS, ORC_CANDIDATES
+    from .histories import compare, parse_model_obs, INTEGRATION_STATUS, orc_candidates, no_octopus_of
     st = info.get('rebuild_status')
     if st in INTEGRATION_STATUS:
         alts = [('i', '-')]
     elif st == 'Conflict':
-        alts = [('i', o) for o in ORC_CANDIDATES]
+        alts = [('i', o) for o in orc_candidates(no_octopus_of(run, info['pr']))]
     else:
         return 'skip', None
     lines = [eval_line(run, info, stage, orc) for stage, orc in alts]
